@@ -8,6 +8,9 @@ SIGS2 = {
     "pv": ([((1, 1), 1), ((0, 0), 2)], [((1, 1), 1)]),
     "vs-unsorted": ([((1, 0), 1), ((0, 0), 2)], [((1, 0), 2), ((0, 0), 1)]),
     "s": ([((0, 0), 2)], [((0, 0), 1)]),
+    # order-0 types only, one of them a pseudoscalar: no tensor-valued type anywhere in the network
+    "sp": ([((0, 0), 1), ((0, 1), 2)], [((0, 1), 1), ((0, 0), 1)]),
+    "p": ([((0, 1), 2)], [((0, 1), 1)]),
 }
 
 
